@@ -3,6 +3,10 @@
 One-directional oracle (no false negatives): own segment/cell clipping (Liang-Barsky against the
 cell shrunk by EPS cell units) and own point-polyline distance.  The grid geometry is read from the
 public fields of the index (xmin, ymin, dX, dY, csize, lsize).  Extra candidates never fail a case.
+
+History dimensions: features may reach the judged index in two stages (incremental addEdge, index created again,
+bbox() asked before the last features are added), and other queries (nearest-feature search unit=-1, fixed-unit
+neighbourhoods, point / segment / track requests) are issued on the same index object before each judged query.
 """
 import math
 
@@ -28,8 +32,19 @@ ASSUMPTIONS = [
     "demands separately that this extent contains every indexed vertex",
     "features: ENU polylines with 2..5 vertices in [0,16]^2 (quarter lattice, integer lattice, floats), at least "
     "0.25 of extent on each axis; zero-length segments allowed; networks built with Node/Edge/addEdge exactly as "
-    "NetworkReader does (edge geometry runs source->target, weight = 2D length), optionally one edge added after "
-    "createSpatialIndex (demanded only if it lies inside the index extent)",
+    "NetworkReader does (edge geometry runs source->target, weight = 2D length; nodes are shared by position)",
+    "features may arrive in two stages (case fields late = 1..2 trailing features, plan): 'incremental' (network) = index on "
+    "the first ones, the others enter that index through addEdge (demanded only if they lie inside its extent); 'reindex' = "
+    "index on the first ones, the others are added (addEdge / addTrack), the index is created again; 'bbox-first' = bbox() of "
+    "the first ones is asked, the others are added, the index is created once.  A second-stage feature is a free polyline "
+    "(new nodes) or a by-pass between two existing end vertices (existing nodes) whose middle vertices may leave the first "
+    "extent.  The judged index is the last one; after reindex / bbox-first every feature is demanded and its extent must "
+    "contain every vertex",
+    "history (case field pre = one list per judged query): 0..3 other queries are issued on the same index object before the "
+    "judged one, from the same point / the centre of the same cell / a neighbouring cell / elsewhere: nearest-feature search "
+    "neighborhood(p, unit=-1), neighborhood(p, unit=0..3), request(p), request(segment|track), neighborhood(segment|track, "
+    "unit=-1..3) (the segment nearest search only on grids of <= 900 cells); their answers are not judged (the nearest search "
+    "is outside the statement); every judged query, also the 2nd..4th of a case, keeps the full oracle",
     "resolution None (default) or (rx, ry) from {0.5,1,2,3.7}^2 with rx, ry <= bounding-box side; margin in {0,0.05,0.25,1}",
     "queries lie inside the closed index extent; a query within 1e-9 cell units of a cell border may be answered "
     "from any of the cells whose closed extent contains it",
@@ -96,6 +111,16 @@ S_NPATH = st.sampled_from([2, 2, 2, 3, 4])
 S_DFAM = st.sampled_from(["lattice", "float", "small-side", "big-side", "reach", "reach", "zero"])
 S_HALF = st.sampled_from([0.0, 0.0, 0.5])
 S_REACH = st.sampled_from([1.0, 1.001, 1.25])
+# history: other queries issued on the same index object before a judged query
+S_NPRE = st.sampled_from([0, 0, 0, 1, 1, 2, 3])
+S_OP = st.sampled_from(["nearest", "nearest", "nearest", "nearest", "nbh", "request", "request-path", "nbh-path",
+                        "nearest-path"])
+S_AT = st.sampled_from(["same", "same", "same", "same-cell", "next-cell", "other"])
+S_PREU = st.sampled_from([0, 1, 1, 2, 3])
+S_SIGN = st.sampled_from([-1.0, 0.0, 1.0])
+NEAREST_PATH_CAP = 900          # cells; the nearest search from a segment scans whole windows per crossed cell
+PLANS = {"tracks": ["reindex", "bbox-first"],
+         "network": ["incremental", "incremental", "reindex", "bbox-first", "reindex", "bbox-first"]}
 
 
 def _int(draw, lo, hi):
@@ -182,18 +207,60 @@ def _qpoint(draw, G, polys):
     return [_clip(x, xmin, xmax), _clip(y, ymin, ymax)]
 
 
+def _history(draw, G, polys, anchor):
+    """0..3 queries that are issued (not judged) on the same index before the judged query at `anchor`"""
+    ops = []
+    for _ in range(draw(S_NPRE)):
+        op, at = draw(S_OP), draw(S_AT)
+        if at == "same":
+            p = [anchor[0], anchor[1]]
+        elif at == "same-cell":         # centre of the (modelled) cell of the anchor
+            i = min(max(math.floor((anchor[0] - G["xmin"]) / G["dX"]), 0), G["cs"] - 1)
+            j = min(max(math.floor((anchor[1] - G["ymin"]) / G["dY"]), 0), G["ls"] - 1)
+            p = [G["xmin"] + (i + 0.5) * G["dX"], G["ymin"] + (j + 0.5) * G["dY"]]
+        elif at == "next-cell":
+            p = [_clip(anchor[0] + draw(S_SIGN) * G["dX"], G["xmin"], G["xmax"]),
+                 _clip(anchor[1] + draw(S_SIGN) * G["dY"], G["ymin"], G["ymax"])]
+        else:
+            p = _qpoint(draw, G, polys)
+        if op == "nearest-path" and G["cs"] * G["ls"] > NEAREST_PATH_CAP:
+            op = "nearest"
+        if op == "nearest":
+            ops.append(["nearest", p])
+        elif op == "nbh":
+            ops.append(["nbh", p, draw(S_PREU)])
+        elif op == "request":
+            ops.append(["request", p])
+        else:
+            path = [p] + [_qpoint(draw, G, polys) for _ in range(draw(S_NPATH) - 1)]
+            if op == "request-path":
+                ops.append(["request-path", path])
+            else:
+                ops.append(["nbh-path", path, -1 if op == "nearest-path" else draw(S_PREU)])
+    return ops
+
+
 def _case(qkind):
     @st.composite
     def build(draw):
         kind = draw(S_KIND)
         nf = _int(draw, 1, 4)
         polys = _widen([_polyline(draw) for _ in range(nf)])
-        late = 0
-        if kind == "network" and nf >= 2 and _int(draw, 0, 4) == 0:
-            late = 1
+        # features in two stages: the last `late` ones are added after the extent was first computed
+        late, plan = 0, None
+        if nf >= 2 and _int(draw, 0, 9) < 4:
+            late = 2 if nf >= 3 and _int(draw, 0, 2) == 0 else 1
+            plan = PLANS[kind][_int(draw, 0, len(PLANS[kind]) - 1)]
         early = polys[:nf - late]
         if late:
             early = _widen(early)
+            for k in range(nf - late, nf):
+                if draw(S_BOOL):            # by-pass: from one existing end vertex (network node) to another
+                    a = early[_int(draw, 0, len(early) - 1)][-_int(draw, 0, 1)]
+                    b = early[_int(draw, 0, len(early) - 1)][-_int(draw, 0, 1)]
+                    mid = polys[k][1:-1] or [[draw(S_COORD), draw(S_COORD)]]
+                    polys[k] = [list(a)] + mid + [list(b)]
+        final = early if plan in (None, "incremental") else polys     # features the judged index is built from
         margin = draw(S_MARGIN)
         x0, x1, y0, y1 = _bbox(early)
         if _int(draw, 0, 13) == 0:
@@ -210,19 +277,23 @@ def _case(qkind):
             if _int(draw, 0, 3) == 0 and rx <= y1 - y0:
                 ry = rx                                   # square request
             res = [rx, ry]
-        G = _model_grid(early, res, margin)
+        G = _model_grid(final, res, margin)
         case = {"kind": kind, "feats": polys, "late": late, "res": res, "margin": margin}
+        if plan:
+            case["plan"] = plan
         nq = _int(draw, 1, 4)
         if qkind == "point":
-            case["pts"] = [_qpoint(draw, G, early) for _ in range(nq)]
+            case["pts"] = [_qpoint(draw, G, final) for _ in range(nq)]
+            case["pre"] = [_history(draw, G, final, q) for q in case["pts"]]
         elif qkind == "path":
-            case["paths"] = [[_qpoint(draw, G, early) for _ in range(draw(S_NPATH))] for _ in range(nq)]
+            case["paths"] = [[_qpoint(draw, G, final) for _ in range(draw(S_NPATH))] for _ in range(nq)]
+            case["pre"] = [_history(draw, G, final, q[0]) for q in case["paths"]]
         else:
             diag = math.hypot(G["xmax"] - G["xmin"], G["ymax"] - G["ymin"])
             small, big = min(G["dX"], G["dY"]), max(G["dX"], G["dY"])
             qs = []
             for _ in range(nq):
-                q = _qpoint(draw, G, early)
+                q = _qpoint(draw, G, final)
                 fam = draw(S_DFAM)
                 if fam == "zero":
                     d = 0.0
@@ -239,6 +310,7 @@ def _case(qkind):
                     d = oracle.pt_polyline_dist(q[0], q[1], pl) * draw(S_REACH)
                 qs.append([q[0], q[1], min(d, diag)])
             case["nbh"] = qs
+            case["pre"] = [_history(draw, G, final, q) for q in qs]
         return case
     return build
 
@@ -248,29 +320,48 @@ def _case(qkind):
 KEY_BORDER = "max-border-cell-index"
 
 
+def _plan(case):
+    """(plan, late): how the features reach the judged index.
+    incremental - (network only) createSpatialIndex on the first nf-late edges, the others enter that index through addEdge
+    reindex     - index on the first nf-late features, the others are added, the index is created AGAIN
+    bbox-first  - bbox() of the first nf-late features is asked, the others are added, the index is created once
+    Without late features everything is built at once."""
+    late = case.get("late", 0)
+    plan = case.get("plan") or "incremental"
+    if case["kind"] == "tracks" and plan == "incremental":
+        late = 0
+    return (plan, late) if late else ("at-once", 0)
+
+
 def _build(case):
     """-> (index, list of feature numbers that are demanded)"""
     polys = case["feats"]
     res = None if case["res"] is None else (case["res"][0], case["res"][1])
     margin = case["margin"]
     nf = len(polys)
-    late = case.get("late", 0) if case["kind"] == "network" else 0
+    plan, late = _plan(case)
     tracks = [gen.make_track([(p[0], p[1]) for p in pl]) for pl in polys]
-    early = polys[:nf - late]
-    x0, x1, y0, y1 = _bbox(early)
-    def border_defect(e):
-        # with margin 0 the vertices that define the bounding box sit on the max border of the grid
-        return Violation(KEY_BORDER, "building the index with margin=0 raises IndexError: a vertex on the max "
-                         "border (x=%r or y=%r) is mapped to cell index csize/lsize" % (x1, y1))
 
-    net = None
-    if case["kind"] == "tracks":
+    def guarded(fn, feats):
+        # with margin 0 the vertices that define the bounding box sit on the max border of the grid
         try:
-            si = SpatialIndex(TrackCollection(tracks), res, margin, False)
-        except IndexError as e:
+            return fn()
+        except IndexError:
             if margin == 0:
-                raise border_defect(e)
+                x0, x1, y0, y1 = _bbox(feats)
+                raise Violation(KEY_BORDER, "building the index with margin=0 raises IndexError: a vertex on the max "
+                                "border (x=%r or y=%r) is mapped to cell index csize/lsize" % (x1, y1))
             raise
+
+    if case["kind"] == "tracks":
+        coll = TrackCollection(tracks[:nf - late])
+        if plan == "reindex":
+            guarded(lambda: SpatialIndex(coll, res, margin, False), polys[:nf - late])
+        elif plan == "bbox-first":
+            coll.bbox()
+        for k in range(nf - late, nf):
+            coll.addTrack(tracks[k])
+        si = guarded(lambda: SpatialIndex(coll, res, margin, False), polys)
     else:
         net = Network()
         ids = {}
@@ -289,30 +380,35 @@ def _build(case):
 
         for k in range(nf - late):
             add(k)
-        try:
-            net.createSpatialIndex(res, margin, False)
-        except IndexError as e:
-            if margin == 0:
-                raise border_defect(e)
-            raise
+        if plan == "bbox-first":
+            net.bbox()
+        else:
+            guarded(lambda: net.createSpatialIndex(res, margin, False), polys[:nf - late])
         si = net.spatial_index
         for k in range(nf - late, nf):
             try:
                 add(k)
             except IndexError:
                 # an edge added later may have a vertex exactly on the max border of the extent
-                if any((p[0] - si.xmin) / si.dX >= si.csize or (p[1] - si.ymin) / si.dY >= si.lsize
-                       for p in polys[k] if si.xmin <= p[0] <= si.xmax and si.ymin <= p[1] <= si.ymax):
+                if si is not None and any(
+                        (p[0] - si.xmin) / si.dX >= si.csize or (p[1] - si.ymin) / si.dY >= si.lsize
+                        for p in polys[k] if si.xmin <= p[0] <= si.xmax and si.ymin <= p[1] <= si.ymax):
                     raise Violation(KEY_BORDER, "addEdge after createSpatialIndex raises IndexError: a vertex of %r on "
                                     "the max border of the extent is mapped to cell index csize/lsize" % (polys[k],))
                 raise
-    for k in range(nf - late):
+        if plan in ("reindex", "bbox-first"):
+            guarded(lambda: net.createSpatialIndex(res, margin, False), polys)
+            si = net.spatial_index
+    # the judged index was built from `base` features; later ones entered it through addEdge
+    base = nf - late if plan == "incremental" else nf
+    for k in range(base):
         for p in polys[k]:
             if not (si.xmin <= p[0] <= si.xmax and si.ymin <= p[1] <= si.ymax):
-                raise Violation("extent-excludes-vertex", "vertex %r of feature %d outside index extent %r" % (
-                    p, k, (si.xmin, si.xmax, si.ymin, si.ymax)))
-    demanded = list(range(nf - late))
-    for k in range(nf - late, nf):          # an edge added later is indexed only where it fits the extent
+                raise Violation("extent-excludes-vertex", "vertex %r of feature %d outside index extent %r (features "
+                                "arrived by plan %r, %d of %d in the second stage)" % (
+                                    p, k, (si.xmin, si.xmax, si.ymin, si.ymax), plan, late, nf))
+    demanded = list(range(base))
+    for k in range(base, nf):          # an edge added later is indexed only where it fits the extent
         if all(si.xmin <= p[0] <= si.xmax and si.ymin <= p[1] <= si.ymax for p in polys[k]):
             demanded.append(k)
     return si, demanded
@@ -400,9 +496,71 @@ def _base_cls(case, si):
            "res=default" if case["res"] is None else "res=explicit"]
     nonsq = abs(si.dX - si.dY) > 1e-9 * max(si.dX, si.dY)
     cls.append("cells=nonsquare" if nonsq else "cells=square")
-    if case["kind"] == "network" and case.get("late"):
-        cls.append("late-edge")
+    plan, late = _plan(case)
+    if late:
+        cls.append("late-edge" if plan == "incremental" else "two-stage")
+        cls.append("plan=" + plan)
+        polys = case["feats"]
+        early = polys[:len(polys) - late]
+        x0, x1, y0, y1 = _bbox(early)
+        mx, my = case["margin"] * (x1 - x0), case["margin"] * (y1 - y0)
+        ends = set((pl[s][0], pl[s][1]) for pl in early for s in (0, -1))
+        for pl in polys[len(polys) - late:]:
+            outside = any(not (x0 - mx <= p[0] <= x1 + mx and y0 - my <= p[1] <= y1 + my) for p in pl)
+            bypass = (pl[0][0], pl[0][1]) in ends and (pl[-1][0], pl[-1][1]) in ends
+            cls.append("late:%s,%s" % ("between-existing-nodes" if bypass else "new-node",
+                                       "leaves-first-extent" if outside else "inside-first-extent"))
     return cls, nonsq
+
+
+def _run_pre(si, g, ops, cls):
+    """history: queries issued on the same index before a judged one; their answers are not judged (the nearest-feature
+    search unit=-1 is not covered by the property), they must only leave the index able to answer the judged query"""
+    for op in ops or []:
+        name, arg = op[0], op[1]
+        pts = [arg] if name in ("nearest", "nbh", "request") else arg
+        if not all(g.inside(p[0], p[1]) for p in pts):
+            cls.append("pre-skipped-outside-extent")
+            continue
+        co = [ENUCoords(p[0], p[1], 0.0) for p in pts]
+        if name == "nearest":
+            fn = lambda: si.neighborhood(co[0], unit=-1)
+        elif name == "nbh":
+            fn = lambda: si.neighborhood(co[0], unit=op[2])
+        elif name == "request":
+            fn = lambda: si.request(co[0])
+        elif name == "request-path":
+            if len(co) == 2:
+                fn = lambda: si.request([co[0], co[1]])
+            else:
+                fn = lambda: si.request(gen.make_track([(p[0], p[1]) for p in pts]))
+        elif name == "nbh-path":
+            if len(co) == 2:
+                fn = lambda: si.neighborhood([co[0], co[1]], unit=op[2])
+            else:
+                fn = lambda: si.neighborhood(gen.make_track([(p[0], p[1]) for p in pts]), unit=op[2])
+        else:
+            raise HarnessError("unknown history operation %r" % (op,))
+        try:
+            _call(fn, g, pts, "%s%r" % (name, tuple(op[1:])))
+        except TypeError:
+            # neighborhood(track, unit=-1) iterates over the answer of the segment search, which is None when that search
+            # finds nothing at all; the nearest search is outside the statement, so this is only counted
+            if name == "nbh-path" and op[2] == -1 and len(co) > 2:
+                cls.append("pre-nearest-track-found-nothing")
+                continue
+            raise
+        cls.append("pre=" + (name if name != "nbh-path" or op[2] != -1 else "nearest-path"))
+
+
+def _after_history(case, key, ask, missing):
+    """narrower key when the omission depends on what was asked before: a fresh index built from the same case gives
+    the omitted feature(s) for the same query"""
+    si2, _ = _build(case)
+    fresh = ask(si2)
+    if fresh is not None and set(missing) <= set(fresh):
+        return key + "-after-earlier-queries"
+    return key
 
 
 def _call(fn, g, pts, what):
@@ -425,10 +583,12 @@ def body_point(case):
     if g.fragile_feats:
         cls.append("rounding-excluded-feature")
     nt = False
-    for q in case["pts"]:
+    pre = case.get("pre") or []
+    for qi, q in enumerate(case["pts"]):
         if not g.inside(q[0], q[1]):
             cls.append("query-outside-extent")
             continue
+        _run_pre(si, g, pre[qi] if qi < len(pre) else [], cls)
         got = _call(lambda: si.request(ENUCoords(q[0], q[1], 0.0)), g, [q], "request(%r)" % (q,))
         got = set(got)
         cells, cx, cy = g.cells_of_point(q[0], q[1])
@@ -442,7 +602,10 @@ def body_point(case):
         if best is None:
             raise HarnessError("no cell of the grid contains %r although it is inside the extent" % (q,))
         if best[1]:
-            raise Violation("request-point-omits", "request(%r) = %s; cell %s (of candidates %s, cell coords "
+            key = "request-point-omits"
+            if qi or (qi < len(pre) and pre[qi]):
+                key = _after_history(case, key, lambda s2: s2.request(ENUCoords(q[0], q[1], 0.0)), best[1])
+            raise Violation(key, "request(%r) = %s; cell %s (of candidates %s, cell coords "
                             "(%r, %r)) is crossed by feature(s) %s" % (q, sorted(got), best[0], cells, cx, cy,
                                                                          sorted(best[1])))
         dem = min(len(g.must(*c)) for c in cells)
@@ -461,13 +624,15 @@ def body_path(case):
     if g.fragile_feats:
         cls.append("rounding-excluded-feature")
     nt = False
-    for path in case["paths"]:
+    pre = case.get("pre") or []
+    for qi, path in enumerate(case["paths"]):
         if not all(g.inside(p[0], p[1]) for p in path):
             cls.append("query-outside-extent")
             continue
         if any(g.fragile(p[0], p[1]) for p in path):
             cls.append("rounding-excluded-query")
             continue
+        _run_pre(si, g, pre[qi] if qi < len(pre) else [], cls)
         crossed = []
         for s in range(len(path) - 1):
             for c in g.cells_of_segment(path[s], path[s + 1]):
@@ -516,10 +681,13 @@ def body_nbh(case):
     if g.fragile_feats:
         cls.append("rounding-excluded-feature")
     nt = False
-    for x, y, d in case["nbh"]:
+    pre = case.get("pre") or []
+    for qi, (x, y, d) in enumerate(case["nbh"]):
         if not g.inside(x, y):
             cls.append("query-outside-extent")
             continue
+        ops = pre[qi] if qi < len(pre) else []
+        _run_pre(si, g, ops, cls)
         u = si.groundDistanceToUnits(d)
         got = _call(lambda: si.neighborhood(ENUCoords(x, y, 0.0), unit=u), g, [[x, y]],
                     "neighborhood(%r, unit=%r)" % ((x, y), u))
@@ -540,6 +708,8 @@ def body_nbh(case):
                     key = "ground-units-too-few"
                     if nonsq and u == math.floor(d / max(si.dX, si.dY) + 1):
                         key = "ground-units-from-larger-cell-side"
+            if key == "neighborhood-omits" and (qi or ops):
+                key = _after_history(case, key, lambda s2: s2.neighborhood(ENUCoords(x, y, 0.0), unit=u), miss)
             raise Violation(key, "feature %d is at distance %r <= d=%r of %r but neighborhood(unit="
                             "groundDistanceToUnits(d)=%r) = %s; cells are %r x %r, %r units would be needed"
                             % (k, dist, d, (x, y), u, sorted(got), si.dX, si.dY, u_small))
@@ -548,6 +718,9 @@ def body_nbh(case):
         cls.append("q=" + where)
         cls.append("demand>0" if need else "demand=0")
         cls.append("d=0" if d == 0 else "d<small-side" if d < min(si.dX, si.dY) else "d>=small-side")
+        if need and any(g.cells_of_point(op[1][0], op[1][1])[0][:1] == cells[:1] for op in ops
+                        if op[0] == "nearest" and g.inside(op[1][0], op[1][1])):
+            cls.append("demand>0-after-nearest-search-from-same-cell")
         outer = False
         if need and isinstance(u, int) and (2 * u + 1) ** 2 <= RING_CAP and cells:
             i0, j0 = math.floor(cx), math.floor(cy)
@@ -571,15 +744,19 @@ def body_nbh(case):
 RULE = ("Every case builds one index (TrackCollection or Network, 1-4 polylines on integer/quarter lattices and floats, "
         "resolution default or from {0.5,1,2,3.7}^2, margin from {0,0.05,0.25,1}) and asks 1-4 queries aimed at lattice points, "
         "feature vertices, points of feature segments, cell borders/corners of the modelled grid and the border of the extent. "
+        "In 3 of 10 cases with >= 2 features the last 1-2 features arrive in a second stage (incremental addEdge / index created "
+        "again / bbox() asked first), half of them between existing end vertices; each judged query is preceded by 0-3 unjudged "
+        "queries on the same index (nearest search from the same cell most often).  Class labels plan=*, late:*, pre=* and "
+        "'demand>0-after-nearest-search-from-same-cell' measure these.  "
         "Non-trivial: at least one membership is demanded by the oracle AND (cells are non-square OR a query point / path vertex "
         "lies on a cell border or corner OR (neighbourhood) a demanded feature is reached only in the outermost ring of cells). "
         "Distinct = hash of the case.")
 
 SUBCHECKS = [
-    SubCheck("point", body_point, strategy=_case("point"), quick=10000, thorough=240000, qshards=5,
+    SubCheck("point", body_point, strategy=_case("point"), quick=8500, thorough=240000, qshards=5,
              rule="request(coord) must list every feature crossing the (shrunk) cell of the point"),
-    SubCheck("path", body_path, strategy=_case("path"), quick=7000, thorough=160000, qshards=5,
+    SubCheck("path", body_path, strategy=_case("path"), quick=6000, thorough=160000, qshards=5,
              rule="request([c1,c2]) / request(track) must list everything registered in, or crossing, each crossed cell"),
-    SubCheck("neighbourhood", body_nbh, strategy=_case("nbh"), quick=10000, thorough=240000, qshards=5,
+    SubCheck("neighbourhood", body_nbh, strategy=_case("nbh"), quick=9000, thorough=240000, qshards=5,
              rule="neighborhood(q, unit=groundDistanceToUnits(d)) must list every feature within d of q"),
 ]
